@@ -247,8 +247,10 @@ static int emod_load(struct module_data *m, HIO_HANDLE * f, const int start)
 	ret |= libxmp_iff_register(handle, "PATT", get_patt);
 	ret |= libxmp_iff_register(handle, "8SMP", get_8smp);
 
-	if (ret != 0)
+	if (ret != 0) {
+		libxmp_iff_release(handle);
 		return -1;
+	}
 
 	/* Load IFF chunks */
 	if (libxmp_iff_load(handle, m, f, &data) < 0) {
